@@ -859,13 +859,22 @@ func (e *recExec) settleOracle(o *Out) {
 		for obj, rev := range e.table.All(rtx) {
 			if obj.GetStatus().Kind == reconciler.StatusKindError {
 				if c, ok := lastCall("U", obj.ID); ok && !c.ok && c.data == obj.Data {
-					// the queued retry remembers the revision its failed attempt was given (first attempt: the
-					// revision of the change; a retry: the revision of the previous failure's status write)
+					// the oldest failed CHANGE: the revision the FIRST failed attempt since the object last
+					// changed (or succeeded) was made for; later retries of the same change do not move it
 					r := rev
-					if c.rev > 0 && c.rev < r {
-						r = c.rev
+					for i := len(e.calls) - 1; i >= 0; i-- {
+						ci := e.calls[i]
+						if ci.id != obj.ID {
+							continue
+						}
+						if ci.op == "change" || (ci.op == "U" && ci.ok) || ci.op == "D" {
+							break
+						}
+						if ci.op == "U" && !ci.ok && ci.rev > 0 && ci.rev < r {
+							r = ci.rev
+						}
 					}
-					consider(r, fmt.Sprintf("failed update of object %d (attempt made for revision %d, object now at %d)", obj.ID, r, rev))
+					consider(r, fmt.Sprintf("failed update of object %d (first failed attempt made for revision %d, object now at %d)", obj.ID, r, rev))
 				}
 			}
 		}
